@@ -78,7 +78,7 @@ Proof. exact no_lookup_all_puts_started. Qed.
 Theorem C06_put_told_or_parked : forall s t c m cached,
   (exists e, snd (step_put s t c m cached) = [OPut c (OutErr (EConcurrency e))] /\ fst (step_put s t c m cached) = s)
   \/ (snd (step_put s t c m cached) = [] /\ In (t, c) (psend (fst (step_put s t c m cached)))
-      /\ exists p, In p (puts (fst (step_put s t c m cached))) /\ pe_target p = t /\ pe_started p = cached).
+      /\ exists p, In p (puts (fst (step_put s t c m cached))) /\ pe_target p = t).
 Proof. exact put_told_or_parked. Qed.
 
 Theorem C06_get_parks_on_active_lookup : forall s t c, In (t, c) (gsend (step_get s t c)) /\ In t (lookups (step_get s t c)).
